@@ -615,6 +615,29 @@ def repro_unexpected(hist):
     return body
 
 
+def repro_watch(hist, name, expect):
+    """script that fails iff the object bound to `name` along the history is not in the state `expect` (canonical) at the end"""
+    body = PRELUDE
+    for h in hist:
+        body += 'try:\n' + ''.join('    ' + ln + '\n' for ln in h.splitlines()) + 'except (ValueError, TypeError, KeyError) as e: print("raised", repr(e))\n'
+    body += SHOW_SRC
+    body += (f'expected = {expect!r}\nprint("watched ", state({name}))\nprint("expected", expected)\n'
+             f'assert state({name}) == expected, "a model was changed by operations performed on another model object"\n')
+    return body
+
+
+def check_watched(ctx, orig, hist):
+    """`orig` = (object, state, name in the repro script, canonical state, site, input class): it must still be in that state"""
+    if orig is None or state(orig[0]) == orig[1]:
+        return True
+    name = orig[2] if len(orig) > 2 else None
+    ctx.fail('property', orig[4] if name else 'CQM.__deepcopy__', orig[5] if name else 'original changed',
+             ('a model and the copy returned for it are not independent: operations on one changed the other' if name else
+              'mutating a deep copy changed the model it was copied from'),
+             repro=repro_watch(hist, name, orig[3]) if name else None, detail=dict(history=list(hist), original=orig[1], now=state(orig[0])))
+    return False
+
+
 SHOW_SRC = '''
 from fractions import Fraction
 import numpy as _np
@@ -643,7 +666,7 @@ def state(cqm):
 OPS = (['addvar'] * 3 + ['objm'] * 2 + ['objt'] + ['conm'] * 4 + ['conc'] * 2 + ['cont'] * 2 + ['discm', 'discc', 'discv', 'discv']
        + ['rmvar'] * 3 + ['fix'] * 3 + ['fixmany', 'fixcopy', 'fixcopy'] + ['flip'] * 2 + ['cvt'] * 2 + ['s2b'] + ['rmcon'] * 2
        + ['relv'] * 2 + ['relc'] + ['setb'] + ['vaddl', 'vsetl', 'vaddq', 'vaddq', 'vrmi', 'vrmv', 'voff', 'vmark', 'vweight']
-       + ['deepcopy'] + ['bad'] * 3)
+       + ['deepcopy'] + ['cpapi'] * 3 + ['addvars'] * 2 + ['clear'] + ['ssl'] * 2 + ['bad'] * 3)
 
 
 def classify(k, line, ref, args):
@@ -653,7 +676,7 @@ def classify(k, line, ref, args):
             'discv': 'CQM.add_discrete', 'rmvar': 'CQM.remove_variable', 'fix': 'CQM.fix_variable', 'fixmany': 'CQM.fix_variables',
             'fixcopy': 'CQM.fix_variables', 'flip': 'CQM.flip_variable', 'cvt': 'CQM.change_vartype', 's2b': 'CQM.spin_to_binary',
             'rmcon': 'CQM.remove_constraint', 'relv': 'CQM.relabel_variables', 'relc': 'CQM.relabel_constraints',
-            'setb': 'CQM.set_bound', 'deepcopy': 'CQM.__deepcopy__'}.get(k, 'CQM expression view')
+            'setb': 'CQM.set_bound', 'deepcopy': 'CQM.__deepcopy__', 'cpapi': 'CQM copy-returning call', 'addvars': 'CQM.add_variables', 'clear': 'CQM.clear', 'ssl': 'CQM.substitute_self_loops'}.get(k, 'CQM expression view')
     return site
 
 
@@ -667,7 +690,8 @@ def one_history(ctx, r, nops, out):
     out.append(dict(line='new', expect='ok ' + state(cqm), k='new', hist=()))
     ncon = [0]
     views = {}       # id(RCon) -> (view object, RCon)
-    orig = None      # (object, state string) of a model that was deep-copied and must stay as it was
+    orig = None      # (object, state string, …) of a model that was copied / is a copy and must stay as it was (`check_watched`)
+    nw = [0]
 
     def newlabel():
         ncon[0] += 1
@@ -729,23 +753,32 @@ def one_history(ctx, r, nops, out):
                 line = (f'conm {lab(label)} {sense} {rat(rhs)} {int(cp)} {"-" if weight is None else rat(weight)} {PEN[penalty]} '
                         + model_args(md))
                 kw = f'label={label!r}, copy={cp}' + (f', weight={weight!r}, penalty={penalty!r}' if weight is not None else '')
+                direct = r.random() < .3      # the method `add_constraint` dispatches to, called directly
+                if direct:
+                    ctx.tick('direct: add_constraint_from_' + ('model' if k == 'conm' else 'comparison'))
                 if k == 'conm':
-                    code = src + f'cqm.add_constraint(_m, {sense!r}, {rhs!r}, {kw})'
+                    code = src + f'cqm.add_constraint{"_from_model" if direct else ""}(_m, {sense!r}, {rhs!r}, {kw})'
                 else:
-                    code = src + f'cqm.add_constraint(_m {sense} {rhs!r}, {kw})'
+                    code = src + f'cqm.add_constraint{"_from_comparison" if direct else ""}(_m {sense} {rhs!r}, {kw})'
                 spec = lambda: ref2.add_constraint_model(md, sense, rhs, label, weight, penalty)   # noqa: E731
                 if weight is not None and penalty == 'quadratic' and any(t[1] not in ('BINARY', 'SPIN') for t in md['vars']):
                     site_class = ('CQM.add_constraint', 'invalid weight or penalty')
             elif k == 'discm':
                 label = newlabel(); cp = r.random() < .5; chk = r.random() < .8
                 line = f'discm {lab(label)} {int(cp)} {int(chk)} ' + model_args(md)
-                code = src + f'cqm.add_discrete(_m, label={label!r}, copy={cp}, check_overlaps={chk})'
+                direct = r.random() < .3
+                if direct:
+                    ctx.tick('direct: add_discrete_from_model')
+                code = src + f'cqm.add_discrete{"_from_model" if direct else ""}(_m, label={label!r}, copy={cp}, check_overlaps={chk})'
                 spec = lambda: ref2.add_discrete_model(md, label, chk)   # noqa: E731
             else:
                 label = newlabel(); cp = r.random() < .5; chk = r.random() < .8
                 sense = '==' if r.random() < .9 else r.choice(SENSES); rhs = 1 if r.random() < .9 else 2
                 line = f'discc {lab(label)} {sense} {rat(rhs)} {int(cp)} {int(chk)} ' + model_args(md)
-                code = src + f'cqm.add_discrete(_m {sense} {rhs!r}, label={label!r}, copy={cp}, check_overlaps={chk})'
+                direct = r.random() < .3
+                if direct:
+                    ctx.tick('direct: add_discrete_from_comparison')
+                code = src + f'cqm.add_discrete{"_from_comparison" if direct else ""}(_m {sense} {rhs!r}, label={label!r}, copy={cp}, check_overlaps={chk})'
                 spec = lambda: ref2.add_discrete_model(md, label, chk, sense, rhs)   # noqa: E731
         elif k == 'objt':
             ts = rand_terms(r, ref)
@@ -761,7 +794,10 @@ def one_history(ctx, r, nops, out):
                 penalty = 'linear'
             line = f'cont {lab(label)} {sense} {rat(rhs)} {"-" if weight is None else rat(weight)} {PEN[penalty]} {terms_arg(ts)}'
             kw = f'label={label!r}' + (f', weight={weight!r}, penalty={penalty!r}' if weight is not None else '')
-            code = f'cqm.add_constraint({ts!r}, {sense!r}, {rhs!r}, {kw})'
+            direct = r.random() < .3
+            if direct:
+                ctx.tick('direct: add_constraint_from_iterable')
+            code = f'cqm.add_constraint{"_from_iterable" if direct else ""}({ts!r}, {sense!r}, {rhs!r}, {kw})'
             spec = lambda: ref2.add_constraint_terms(ts, sense, rhs, label, weight, penalty)   # noqa: E731
         elif k == 'discv':
             pool = [v for v in vs if ref.vars[v][0] == 'BINARY'] + ['x', 'y', 'z', 'w', ('a', 1)]
@@ -771,7 +807,10 @@ def one_history(ctx, r, nops, out):
                 dv.append(r.choice(vs))
             label = newlabel(); chk = r.random() < .8
             line = f'discv {lab(label)} {int(chk)} ' + (','.join(lab(v) for v in dv) or '-')
-            code = f'cqm.add_discrete({dv!r}, label={label!r}, check_overlaps={chk})'
+            direct = r.random() < .3
+            if direct:
+                ctx.tick('direct: add_discrete_from_iterable')
+            code = f'cqm.add_discrete{"_from_iterable" if direct else ""}({dv!r}, label={label!r}, check_overlaps={chk})'
             spec = lambda: ref2.add_discrete_vars(dv, label, chk)   # noqa: E731
         elif k == 'rmvar':
             v = anyv(); line = f'rmvar {lab(v)}'; code = f'cqm.remove_variable({v!r})'
@@ -909,14 +948,202 @@ def one_history(ctx, r, nops, out):
                 ctx.fail('property', 'CQM.__deepcopy__', 'copy differs', f'deep copy differs from the original: {state(new)} vs {before}',
                          repro=repro_of(hist, ref.show(canon=True), 'deep copy differs'), detail=dict(history=list(hist)))
                 return
-            if orig is not None and state(orig[0]) != orig[1]:
-                ctx.fail('property', 'CQM.__deepcopy__', 'original changed', 'mutating a deep copy changed the model it was copied from',
-                         repro=None, detail=dict(history=list(hist), original=orig[1], now=state(orig[0])))
+            if not check_watched(ctx, orig, hist[:-1]):
                 return
-            orig = (cqm, before)
+            nw[0] += 1
+            hist[-1] = f'_w{nw[0]} = cqm; cqm = copy.deepcopy(cqm)'
+            orig = (cqm, before, f'_w{nw[0]}', state(cqm, canon=True), 'CQM.__deepcopy__', 'original changed')
             cqm = new
             views = {}
             ctx.case(('deepcopy', before), nontrivial=True)
+            continue
+        elif k == 'cpapi':
+            # every call documented to RETURN A COPY (relabel_variables / spin_to_binary / fix_variables with inplace=False),
+            # with trivial arguments too (empty / identity mapping, nothing to convert, nothing to fix): the result must be the
+            # specification's, the model itself untouched, and the two objects independent under the REST OF THE HISTORY —
+            # either the history goes on on the copy and the original is watched, or it goes on on the original and the copy is watched
+            sub = r.choice(['relv-empty', 'relv-empty', 'relv-identity', 'relv-new', 'relv-swap', 's2b', 's2b-default', 'fix-empty', 'fix'])
+            before = state(cqm)
+            ref2 = ref.copy(); dline = None
+            try:
+                if sub.startswith('relv'):
+                    if sub == 'relv-empty' or not vs:
+                        mp = {}; sub = 'relv-empty'
+                    elif sub == 'relv-identity':
+                        mp = {v: v for v in r.sample(vs, r.randint(1, len(vs)))}
+                    elif sub == 'relv-new':
+                        fresh = [x for x in NEWLABS if x not in ref.vars]
+                        ks = r.sample(vs, min(len(vs), len(fresh), r.randint(1, 2)))
+                        mp = dict(zip(ks, r.sample(fresh, len(ks))))
+                    else:
+                        ks = r.sample(vs, min(len(vs), r.choice([2, 2, 3])))
+                        mp = {ks[i]: ks[(i + 1) % len(ks)] for i in range(len(ks))}
+                    call = f'cqm.relabel_variables({mp!r}, inplace=False)'
+                    ref2.relabel_variables(mp)
+                    dline = 'relv ' + (','.join(f'{lab(a)}={lab(b)}' for a, b in mp.items()) or '-')
+                    site = 'CQM.relabel_variables'
+                    icls = 'inplace=False, ' + {'relv-empty': 'empty mapping', 'relv-identity': 'identity mapping'}.get(sub, 'mapping')
+                elif sub.startswith('s2b'):
+                    call = 'cqm.spin_to_binary(inplace=False)' if sub == 's2b' else 'cqm.spin_to_binary()'
+                    nspin = 0
+                    for v in list(ref2.vars):
+                        if ref2.vars[v][0] == 'SPIN':
+                            ref2.change_vartype('BINARY', v); nspin += 1
+                    dline = 's2b'
+                    site = 'CQM.spin_to_binary'
+                    icls = 'inplace=False' + ('' if nspin else ', no SPIN variable')
+                else:
+                    fx = [] if sub == 'fix-empty' else [(v, r.choice([-1, 0, 1, 2])) for v in r.sample(vs, r.randint(0, min(2, len(vs))))]
+                    arg = dict(fx) if r.random() < .5 else fx
+                    call = f'cqm.fix_variables({arg!r}, inplace=False)'
+                    ref2 = ref.fix_copy(fx)
+                    site = 'CQM.fix_variables'
+                    icls = 'inplace=False' + ('' if fx else ', nothing to fix')
+            except Bad:
+                continue
+            nw[0] += 1
+            name = f'_w{nw[0]}'
+            try:
+                new = eval(call, dict(cqm=cqm))
+            except (ValueError, TypeError, KeyError, IndexError, RuntimeError):
+                continue          # what raises is examined by the in-place forms of these calls
+            ctx.tick(f'copy-returning call: {sub}')
+            if not check_watched(ctx, orig, hist):
+                return
+            if new is cqm:
+                ctx.fail('property', site, icls, f'`{call}` returned the model itself, not a copy: whatever is done to the result is done to the model',
+                         repro=repro_unexpected(hist) + f'new = {call}\nnew.add_variable("BINARY", "__probe__")\n'
+                         'assert "__probe__" not in cqm.variables, "the model changed when the returned copy was changed"\n',
+                         detail=dict(history=list(hist), call=call))
+                return
+            if state(new, canon=True) != ref2.show(canon=True) or state(cqm) != before:
+                ctx.fail('property', site, icls + ': result', f'`{call}`: the returned model is not what the call gives on a list of polynomials, or the model itself changed',
+                         repro=repro_unexpected(hist) + SHOW_SRC + f'_b = state(cqm)\nnew = {call}\nprint(state(new))\n'
+                         f'assert state(cqm) == _b, "the model itself changed"\nassert state(new) == {ref2.show(canon=True)!r}\n',
+                         detail=dict(history=list(hist), call=call, impl=state(new, canon=True), spec=ref2.show(canon=True)))
+                return
+            ctx.case(('cpapi', call, before), nontrivial=True)
+            if dline is not None and r.random() < .6:
+                # the history continues on the copy; the original is watched
+                hist.append(f'{name} = cqm; cqm = {call}')
+                orig = (cqm, before, name, state(cqm, canon=True), site, icls + ': original changed through the copy')
+                cqm = new; ref = ref2; views = {}
+                out.append(dict(line=dline, expect='ok ' + state(cqm), k=dline.split()[0], hist=tuple(hist)))
+            else:
+                # the history continues on the original; the copy is watched
+                hist.append(f'{name} = {call}')
+                orig = (new, state(new), name, state(new, canon=True), site, icls + ': copy changed through the original')
+            continue
+        elif k == 'clear':
+            if r.random() < .85:
+                continue            # rare: it ends the interesting part of a history
+            line = 'new'; code = 'cqm.clear()'
+
+            def spec():
+                ref2.__dict__.update(Ref().__dict__)
+        elif k == 'addvars':
+            # add_variables(vartype, variables | n): documented as NOT atomic — the variables before an inconsistent one stay
+            vt = r.choice(['BINARY', 'SPIN', 'INTEGER', 'REAL'])
+            if r.random() < .2:
+                arg = r.randint(0, 3); labs_ = list(range(arg))
+            else:
+                pool = [v for v in list(KIND) + NEWLABS if KIND.get(v, vt) == vt or r.random() < .08]
+                labs_ = r.sample(pool, min(len(pool), r.randint(0, 3)))
+                if labs_ and r.random() < .15:
+                    labs_.append(labs_[0])
+                arg = labs_
+            lb = ub = None
+            if vt in ('INTEGER', 'REAL') and r.random() < .6:
+                lb, ub = BOUNDS[vt]
+            kw = ''.join(f', {n}={x!r}' for n, x in (('lower_bound', lb), ('upper_bound', ub)) if x is not None)
+            code = f'cqm.add_variables({vt!r}, {arg!r}{kw})'
+            before = state(cqm)
+            hist.append(code)
+            try:
+                exec(code, dict(cqm=cqm)); outcome = 'ok'
+            except ValueError:
+                outcome = 'err:value'
+            except Exception as e:  # noqa
+                ctx.fail('property', 'CQM.add_variables', f'unexpected {type(e).__name__}', f'`{code}` raised {type(e).__name__}: {e}',
+                         repro=repro_unexpected(hist), detail=dict(history=list(hist)))
+                return
+            sout = 'ok'
+            nadded = 0
+            for v in labs_:
+                try:
+                    ref2.add_variable(vt, v, lb, ub); nadded += 1
+                except Bad:
+                    sout = 'err:value'
+                    break
+            ctx.tick('addvars' + ('' if outcome == 'ok' else ':raises'))
+            ctx.case((code, before), nontrivial=True)
+            if outcome != sout or state(cqm, canon=True) != ref2.show(canon=True):
+                ctx.fail('property', 'CQM.add_variables', 'state' if outcome == sout else 'accept/reject',
+                         f'`{code}` ({outcome}): the model is not what adding the variables one by one (up to the first inconsistent one) gives on a list of polynomials',
+                         repro=repro_of(hist, ref2.show(canon=True), 'state after add_variables'), detail=dict(history=list(hist), impl=state(cqm, canon=True), spec=ref2.show(canon=True)))
+                return
+            ref = ref2
+            # the Lean model follows with one `addvar` per variable that was processed (the last line carries the comparison)
+            done = labs_[:nadded + (1 if sout != 'ok' else 0)]
+            for j, v in enumerate(done):
+                ln = f'addvar {vt} {lab(v)} {"-" if lb is None else rat(lb)} {"-" if ub is None else rat(ub)}'
+                last = j == len(done) - 1
+                out.append(dict(line=ln, expect=(f'{outcome} {state(cqm)}' if last else None), k='addvar', hist=tuple(hist)))
+            continue
+        elif k == 'ssl':
+            # substitute_self_loops(): every self-loop b*u*u of a non-BINARY/SPIN variable becomes b*u*new with a new variable of the
+            # same type and bounds, plus one constraint `u - new == 0` labelled `new` per substituted variable.  The new labels are
+            # chosen by the call (random); the specification is applied with the returned mapping, which must name exactly the
+            # variables that had a self-loop, in order of first encounter (objective, then constraints), with fresh labels.
+            before = state(cqm)
+            code = '_mp = cqm.substitute_self_loops()'
+            hist.append(code)
+            ns = dict(cqm=cqm)
+            try:
+                exec(code, ns)
+            except Exception as e:  # noqa
+                ctx.fail('property', 'CQM.substitute_self_loops', f'unexpected {type(e).__name__}', f'`{code}` raised {type(e).__name__}: {e}',
+                         repro=repro_unexpected(hist), detail=dict(history=list(hist)))
+                return
+            mp = dict(ns['_mp'])
+            ref2 = ref.copy()
+            want_keys = []; plines = []; okspec = all(n not in ref.vars and n not in ref.cons for n in mp.values()) and len(set(mp.values())) == len(mp)
+            for which, p in [(None, ref2.obj)] + [(l, c.p) for l, c in ref2.cons.items()]:
+                wl = '-' if which is None else lab(which)
+                for u in list(p.order):
+                    if ref2.vars[u][0] in ('SPIN', 'BINARY') or frozenset((u,)) not in p.quad:
+                        continue
+                    bias = p.quad[frozenset((u,))]
+                    if u not in want_keys:
+                        want_keys.append(u)
+                    new = mp.get(u)
+                    if new is None:
+                        okspec = False
+                        continue
+                    vt, lo, hi = ref2.vars[u]
+                    if new not in ref2.vars:
+                        ref2.add_variable(vt, new, lo, hi)
+                        plines.append(f'addvar {vt} {lab(new)} {rat(float(lo))} {rat(float(hi))}')
+                    p.add_quadratic(u, new, bias, vt); plines.append(f'vaddq {wl} {lab(u)} {lab(new)} {rat(float(bias))}')
+                    p.remove_interaction(u, u); plines.append(f'vrmi {wl} {lab(u)} {lab(u)}')
+            for v, new in mp.items():
+                if v in ref2.vars and new in ref2.vars and new not in ref2.cons:
+                    ts = [(v, 1), (new, -1)]
+                    ref2.add_constraint_terms(ts, '==', 0, new, None, 'linear')
+                    plines.append(f'cont {lab(new)} == 0 - 0 {terms_arg(ts)}')
+                else:
+                    okspec = False
+            ctx.tick('ssl' + (': nothing to substitute' if not want_keys else f': {min(len(want_keys), 3)} variable(s)'))
+            ctx.case((code, before), nontrivial=bool(want_keys))
+            if not okspec or list(mp) != want_keys or state(cqm, canon=True) != ref2.show(canon=True):
+                ctx.fail('property', 'CQM.substitute_self_loops', 'state' if okspec and list(mp) == want_keys else 'returned mapping',
+                         f'`{code}` returned {mp!r}; the variables with a self-loop are {want_keys!r}; the model is ' +
+                         ('not ' if state(cqm, canon=True) != ref2.show(canon=True) else '') + 'what the substitution gives on a list of polynomials',
+                         repro=None, detail=dict(history=list(hist), impl=state(cqm, canon=True), spec=ref2.show(canon=True), mapping=repr(mp)))
+                return
+            ref = ref2
+            for j, ln in enumerate(plines):
+                out.append(dict(line=ln, expect=(f'ok {state(cqm)}' if j == len(plines) - 1 else None), k='ssl', hist=tuple(hist)))
             continue
         elif k == 'bad':
             # malformed calls whose effect on raise is examined separately
@@ -1017,6 +1244,21 @@ def one_history(ctx, r, nops, out):
             return
         if not try_new:
             ref = ref2
+        # ---- derived observers against the specification
+        try:
+            nsoft = sum(1 for c in ref.cons.values() if c.weight is not None)
+            lin_only = all(not p.quad for p in ref.exprs())
+            nb = sum(len(p.order) + len(p.quad) for p in ref.exprs())
+            got_obs = (cqm.num_constraints(), cqm.num_soft_constraints(), bool(cqm.is_linear()), cqm.num_biases(), len(cqm.variables), cqm.num_variables() if callable(cqm.num_variables) else cqm.num_variables)
+            want_obs = (len(ref.cons), nsoft, lin_only, nb, len(ref.vars), len(ref.vars))
+        except Exception as e:  # noqa
+            got_obs, want_obs = ('raise', type(e).__name__), None
+        if got_obs != want_obs:
+            ctx.fail('property', 'CQM counters', 'num_constraints / num_soft_constraints / is_linear / num_biases / num_variables',
+                     f'(num_constraints, num_soft_constraints, is_linear, num_biases, len(variables), num_variables) = {got_obs}, on the list of polynomials {want_obs}',
+                     repro=repro_unexpected(hist) + f'got = (cqm.num_constraints(), cqm.num_soft_constraints(), bool(cqm.is_linear()), cqm.num_biases(), len(cqm.variables))\nprint(got)\nassert got == {want_obs[:5] if want_obs else None!r}\n',
+                     detail=dict(history=list(hist)))
+            return
         # ---- views taken earlier keep pointing at their constraint; removed ones are invalid
         for key, (view, _) in list(views.items()):
             rc = next((c for c in ref.cons.values() if c.uid == key), None)
@@ -1036,18 +1278,17 @@ def one_history(ctx, r, nops, out):
         if ref.cons and r.random() < .3:
             l = r.choice(list(ref.cons))
             views[ref.cons[l].uid] = (cqm.constraints[l].lhs, None)
-    if orig is not None and state(orig[0]) != orig[1]:
-        ctx.fail('property', 'CQM.__deepcopy__', 'original changed', 'mutating a deep copy changed the model it was copied from',
-                 repro=None, detail=dict(history=list(hist), original=orig[1], now=state(orig[0])))
+    check_watched(ctx, orig, hist)
 
 
 def run(ctx):
     r = ctx.rng
-    nhist = ctx.scale(700, 20000)
+    nhist = ctx.scale(1400, 30000)
     ctx.rule = ('random histories (<= 30 ops) of public CQM mutators: add_variable, set_objective (model / iterable), add_constraint '
                 '(model, comparison, iterable; copy and move; hard and soft, both penalties), add_discrete (3 forms), remove/fix/flip/'
                 'change_vartype/relabel variables, fix_variables in place and copying, spin_to_binary, remove_constraint (cascade), '
-                'relabel_constraints, bounds, mutation through objective / constraint views, deepcopy; every variable sits in a random '
+                'relabel_constraints, bounds, mutation through objective / constraint views, deepcopy, the copy-returning calls (inplace=False, trivial arguments too) '
+                'with the history continued on either object, add_variables, clear, substitute_self_loops, the add_*_from_* methods called directly; every variable sits in a random '
                 'subset of the expressions; a case = one operation; non-trivial = state changed or the call raised; distinct by (op line, state before)')
     out = []
     for _ in range(nhist):
@@ -1064,7 +1305,7 @@ def run(ctx):
     nbad = 0
     for i, o in enumerate(out):
         g = got[i] if i < len(got) else 'MISSING'
-        if g != o['expect']:
+        if o['expect'] is not None and g != o['expect']:
             nbad += 1
             if nbad > 3:
                 break
